@@ -2047,6 +2047,9 @@ fuzzy_info = {json.dumps(ret)};
 
         errors = []
 
+        # VV: Maps the spelling of a reference in the arguments to the value that replaces it
+        substitutions = {}  # type: Dict[str, str]
+
         for reference in self.dataReferences:
             graphLogger.debug("Reference: \"%s\"" % reference)
             graphLogger.debug('References:')
@@ -2112,9 +2115,9 @@ fuzzy_info = {json.dumps(ret)};
                 # VV: The reference value is in fact the CONTENTS of the file that the data-reference points to
                 reference_value = reference_value or ""
                 if pattern_absolute.search(arguments) is not None:
-                    arguments = pattern_absolute.sub(lambda m: reference_value, arguments)
+                    substitutions.setdefault(reference.absoluteReference, reference_value)
                 elif pattern_relative.search(arguments) is not None:
-                    arguments = pattern_relative.sub(lambda m: reference_value, arguments)
+                    substitutions.setdefault(reference.relativeReference, reference_value)
                 else:
                     if unused is not None:
                         unused.append(experiment.model.errors.UnusedDataReferenceError(self.identification.identifier,
@@ -2147,9 +2150,16 @@ fuzzy_info = {json.dumps(ret)};
                 else:
                     # Resolve the reference in the command line
                     if pattern_absolute.search(arguments) is None:
-                        arguments = pattern_relative.sub(lambda m: path, arguments)
+                        substitutions.setdefault(reference.relativeReference, path)
                     else:
-                        arguments = pattern_absolute.sub(lambda m: path, arguments)
+                        substitutions.setdefault(reference.absoluteReference, path)
+
+        # VV: Substitute all the references in one pass so that text which is inserted for one reference (e.g. the
+        # contents of a file for an :output reference) is never scanned for occurrences of the other references -
+        # otherwise the outcome would depend on the order of the references.
+        if substitutions:
+            pattern_any = experiment.model.frontends.flowir.pattern_whole_reference_any(substitutions)
+            arguments = pattern_any.sub(lambda m: substitutions[m.group(0)], arguments)
 
         # Check for unresolved/undeclared references in CL - this is anything of form :ref :link
 
